@@ -428,7 +428,11 @@ func c08CacheCoherence(c *Ctx) {
 		}
 		return strings.Contains(s, "lru.") || strings.Contains(s, "Cache") || strings.Contains(s, "sync.Map")
 	}
-	owners := []struct{ pkg, typ string }{{"blockchain", "Blockchain"}, {"blockchain/statebackend", "stateBackend"}, {"blockchain/statebackend", "deprecatedStateBackend"}, {"blockchain", "zzVerifFixtureC08Chain"}}
+	// rpkg/rtyp/rfn: the method that undoes a block for this owner (default: the owner's own RevertHead)
+	owners := []struct{ pkg, typ, rpkg, rtyp, rfn string }{
+		{"blockchain", "Blockchain", "", "", ""}, {"blockchain/statebackend", "stateBackend", "", "", ""}, {"blockchain/statebackend", "deprecatedStateBackend", "", "", ""},
+		{"core/state", "StateDB", "core/state", "State", "Revert"}, // lives across reverts: shared by every State opened on it
+		{"blockchain", "zzVerifFixtureC08Chain", "", "", ""}}
 	n := 0
 	for _, o := range owners {
 		t := p.lookupType(o.pkg, o.typ)
@@ -443,6 +447,9 @@ func c08CacheCoherence(c *Ctx) {
 			continue
 		}
 		rv := p.Func(o.pkg, o.typ, "RevertHead")
+		if o.rfn != "" {
+			rv = p.Func(o.rpkg, o.rtyp, o.rfn)
+		}
 		for i := 0; i < st.NumFields(); i++ {
 			f := st.Field(i)
 			if !isCacheType(f.Type()) {
@@ -455,7 +462,12 @@ func c08CacheCoherence(c *Ctx) {
 				continue
 			}
 			ok := false
-			for _, g := range withAnons(rv) {
+			var scope []*ssa.Function
+			for _, g := range p.Reachable([]*ssa.Function{rv}, func(caller, callee *ssa.Function) bool { return pkgRelOf(callee) != pkgRelOf(rv) }).Funcs() {
+				scope = append(scope, g)
+			}
+			scope = append(scope, withAnons(rv)...)
+			for _, g := range scope {
 				for _, s := range sitesOf(g) {
 					nm := ""
 					if s.Callee != nil {
